@@ -18,7 +18,7 @@ Returns admission, offer and get instants per item."""
 EPS = 1e-9
 
 
-def simulate(L, il, v, cap, acc, producer, consumer, T, admit_first=()):
+def simulate(L, il, v, cap, acc, producer, consumer, T, admit_first=(), chold=None, ccancel=None):
     """admit_first: collection of tie indices (in order of occurrence) resolved as 'admission before the stall'"""
     t = 0.0
     belt = []            # fronts of the items on the belt, head first (not yet offered)
@@ -34,6 +34,9 @@ def simulate(L, il, v, cap, acc, producer, consumer, T, admit_first=()):
     c_waiting = False
     stall_seen = False
     stall_with_others = False
+    take_at = None       # the consumer was handed the head and collects it later (chold): the item waits at the exit till then
+    held = []            # instants at which such a hold began
+    cancelled = []       # instants at which a granted retrieval was withdrawn at once (ccancel): the item stays at the exit
     ties = []            # instants at which an admission request coincides with the head reaching the exit
     guard = 0
     while True:
@@ -48,6 +51,8 @@ def simulate(L, il, v, cap, acc, producer, consumer, T, admit_first=()):
             cands.append(p_req)
         if c_req is not None and not c_waiting:
             cands.append(c_req)
+        if take_at is not None:
+            cands.append(take_at)
         if belt and not frozen and offered is None:
             cands.append(t + max(0.0, (L - belt[0])) / v)
         if p_waiting and len(belt) + (1 if offered is not None else 0) < cap and not frozen:
@@ -109,7 +114,28 @@ def simulate(L, il, v, cap, acc, producer, consumer, T, admit_first=()):
             offer[offered] = t
             progressed = True
         # ---- consumer takes an offered item
-        if c_waiting and offered is not None:
+        while c_waiting and offered is not None and take_at is None and ccancel and ci < len(ccancel) and ccancel[ci]:
+            cancelled.append(t)
+            c_waiting = False
+            ci += 1
+            c_req = t + consumer[ci] if ci < len(consumer) else None
+            progressed = True
+            stall_seen = True
+            if belt or p_waiting:
+                stall_with_others = True
+            if c_req is not None and abs(c_req - t) <= EPS * max(1.0, t):
+                c_waiting = True
+        if c_waiting and offered is not None and take_at is None and chold and ci < len(chold) and chold[ci] > 0:
+            held.append(t)
+            take_at = t + chold[ci]
+            progressed = True
+            stall_seen = True
+            if belt or p_waiting:
+                stall_with_others = True
+        if c_waiting and offered is not None and take_at is not None and take_at > t + EPS * max(1.0, t):
+            pass            # still waiting at the exit for its collection
+        elif c_waiting and offered is not None:
+            take_at = None
             got[offered] = t
             offered = None
             c_waiting = False
@@ -145,4 +171,4 @@ def simulate(L, il, v, cap, acc, producer, consumer, T, admit_first=()):
             if not nxt:
                 break
     return {"admit": admit, "offer": offer, "got": got, "stall": stall_seen, "stall_with_others": stall_with_others,
-            "ties": ties}
+            "ties": ties, "held": held, "cancelled": cancelled}
